@@ -34,6 +34,11 @@ struct State {
   const void* comp_runtime = nullptr;
   std::mutex forced_m;
   std::map<std::string, std::deque<long>> forced;  // "<port>.<event>" -> forced reply indices
+  // honest-arbiter mode of the mock component (C11): grant a claim iff nobody holds it
+  bool arb_on = false;
+  std::string arb_claim, arb_release;  // "<port>.<event>"
+  long arb_grant = 0, arb_deny = 1;
+  bool arb_held = false;  // only touched in dispatcher context
 };
 inline State& S() {
   static State s;
@@ -70,6 +75,11 @@ inline std::string ctx() {
 inline long outval(long n, int pos) { return 7000000 + n * 100 + pos; }
 // reply index for handler invocation n: a forced value if one is queued, otherwise n % count
 inline long reply_index(long n, const std::string& port, const std::string& ev, long count) {
+  if (S().arb_on && port + "." + ev == S().arb_claim) {
+    if (S().arb_held) return S().arb_deny;
+    S().arb_held = true;
+    return S().arb_grant;
+  }
   std::lock_guard<std::mutex> l(S().forced_m);
   auto it = S().forced.find(port + "." + ev);
   if (it != S().forced.end() && !it->second.empty()) {
@@ -82,6 +92,7 @@ inline long reply_index(long n, const std::string& port, const std::string& ev, 
 // a handler (bound by the mock component or by the driver on the user side) was invoked
 inline void handler(const char* side, const std::string& port, const char* dir, const char* ev, long n,
                     std::initializer_list<long> args, long ret) {
+  if (S().arb_on && side[0] == 'c' && port + "." + ev == S().arb_release) S().arb_held = false;
   std::ostringstream o;
   o << "{\"k\":\"h\",\"side\":\"" << side << "\",\"port\":\"" << port << "\",\"dir\":\"" << dir
     << "\",\"ev\":\"" << ev << "\",\"n\":" << n << ",\"args\":" << jlist(args) << ",\"ret\":" << ret << ","
